@@ -43,11 +43,16 @@ extern "C" void vfh_C11_init_mix(void)
 #endif
 	p->count_cells = n;
 	p->correct_disp = (int) vf_int("correct_disp", 0, 1);
+	vf_assume(p->ishift != 0 || p->correct_disp == 0);     /* correct_disp is only read when there is flow */
 	p->multi_Dflag = FALSE;
 	double D = vf_double("diffc_x_timest", 0.0, 5.0);
 	p->diffc_tr = D;
 	p->timest = 1.0;
+#if VF_TIER >= 2
 	int equal = (int) vf_int("equal_cells", 0, 1);
+#else
+	int equal = 0;                                           /* the symmetry obligation runs in the thorough tier */
+#endif
 	double L0 = 0, a0 = 0;
 	for (int i = 0; i <= n + 1; i++)
 	{
